@@ -130,16 +130,23 @@ func childTSync(args []string) {
 				for atomic.LoadInt32(&loaded) == 0 {
 				}
 			case "sleep":
+				// blocking phases use syscall.Syscall (not RawSyscall) so that the Go scheduler releases the P while the
+				// thread is blocked; otherwise at most GOMAXPROCS threads could ever be in a phase
 				for atomic.LoadInt32(&loaded) == 0 {
 					ts := syscall.Timespec{Nsec: 20e6}
-					syscall.RawSyscall(syscall.SYS_NANOSLEEP, uintptr(unsafe.Pointer(&ts)), 0, 0)
+					syscall.Syscall(syscall.SYS_NANOSLEEP, uintptr(unsafe.Pointer(&ts)), 0, 0)
 				}
 			case "read":
 				var b [1]byte
-				syscall.RawSyscall(syscall.SYS_READ, uintptr(pipes[i][0]), uintptr(unsafe.Pointer(&b[0])), 1)
+				for {
+					n, _, e := syscall.Syscall(syscall.SYS_READ, uintptr(pipes[i][0]), uintptr(unsafe.Pointer(&b[0])), 1)
+					if e != syscall.EINTR && (n == 1 || e != 0) {
+						break
+					}
+				}
 			case "futex":
 				for atomic.LoadInt32(&futexWords[i]) == 0 {
-					syscall.RawSyscall6(syscall.SYS_FUTEX, uintptr(unsafe.Pointer(&futexWords[i])), 0 /*FUTEX_WAIT*/, 0, 0, 0, 0)
+					syscall.Syscall6(syscall.SYS_FUTEX, uintptr(unsafe.Pointer(&futexWords[i])), 0 /*FUTEX_WAIT*/, 0, 0, 0, 0)
 				}
 			case "spawn":
 				for atomic.LoadInt32(&loaded) == 0 {
@@ -219,7 +226,7 @@ func childTSync(args []string) {
 			syscall.Write(pipes[i][1], []byte{1})
 		case "futex":
 			atomic.StoreInt32(&futexWords[i], 1)
-			syscall.RawSyscall6(syscall.SYS_FUTEX, uintptr(unsafe.Pointer(&futexWords[i])), 1 /*FUTEX_WAKE*/, 1, 0, 0, 0)
+			syscall.Syscall6(syscall.SYS_FUTEX, uintptr(unsafe.Pointer(&futexWords[i])), 1 /*FUTEX_WAKE*/, 1, 0, 0, 0)
 		}
 	}
 	finished.Wait()
